@@ -67,6 +67,7 @@ def run_one(schema: dict, rng, exercise: int) -> dict:
     # rendering: independent reading of every field annotation (Render.rty) + what the real type_name says + whether the
     # generated error path of a required field contains it
     render_cases = []
+    ident_cases = []
     contain = {"checked": 0, "missing": []}
     if d and sr.build_error is None:
         import dataclasses
@@ -74,8 +75,20 @@ def run_one(schema: dict, rng, exercise: int) -> dict:
         from mashumaro.core.meta.helpers import type_name
         alltext = "\n".join(rec["code"] for rec in sr.programs)
         seen_rc = set()
+        def _ident_case(t):
+            # kernel K43: the real get_type_name_identifier on this type (rendering -> pasted text, registered alias)
+            if len(ident_cases) >= 80:
+                return
+            try:
+                case = list(c17_run.real_type_ident(t))
+            except Exception:
+                return
+            if case not in ident_cases:
+                ident_cases.append(case)
         for c in list(dict.fromkeys(list(d.get("ROOTS", [])) + [c for c in d.get("CLASSES", []) if isinstance(c, type)])):
+            _ident_case(c)
             for fn, t in c17_render.field_types(c):
+                _ident_case(t)
                 term = c17_render.to_rty(t)
                 if term is None:
                     continue
@@ -115,7 +128,7 @@ def run_one(schema: dict, rng, exercise: int) -> dict:
                         if f"MissingField('{fn}',{exp},cls)" not in code and f"MissingField('{fn}',{c17_run.clean(exp)},cls)" not in code:
                             contain["missing"].append(f"{c.__name__}.{fn}: {exp}")
     out = {"idx": schema["idx"], "module": schema["module"], "tags": schema["tags"], "defloc": schema["defloc"],
-           "render_cases": render_cases, "render_contain": contain,
+           "render_cases": render_cases, "ident_cases": ident_cases, "render_contain": contain,
            "build_error": (type(sr.build_error).__name__ + ": " + str(sr.build_error)[:200]) if sr.build_error else None,
            "findings": fs, "programs": progs, "calls": sr.calls, "errors_seen": sr.errors_seen, "info": sr.info,
            "attr_reads": sorted(set(reads)), "attr_sets": sorted(set(sets)),
